@@ -570,7 +570,7 @@ def degenerate_cases():
 
 
 def generate(rng: random.Random, tier: str):
-    n_scales = 5000 if tier == "quick" else 120000
+    n_scales = 5000 if tier == "quick" else 90000
     n_perm = 120 if tier == "quick" else 3000
     out = degenerate_cases()
     for i in range(n_scales):
